@@ -69,11 +69,11 @@ fn c06_all_msgs8_hvec() {
 
 #[kani::proof]
 #[kani::unwind(10)]
-//@ tier=thorough class=core cap=1800 bounds="every message of 0..=6 bytes through Cobs<AllocVec>"
-fn c06_all_msgs6_allocvec() {
-    let msg: [u8; 6] = kani::any();
+//@ tier=thorough class=best cap=1800 bounds="every message of 0..=4 bytes through Cobs<AllocVec>"
+fn c06_all_msgs4_allocvec() {
+    let msg: [u8; 4] = kani::any();
     let n: usize = kani::any();
-    kani::assume(n <= 6);
+    kani::assume(n <= 4);
     let mut f = Cobs::try_new(AllocVec::new()).unwrap();
     let mut i = 0;
     while i < n {
@@ -82,12 +82,13 @@ fn c06_all_msgs6_allocvec() {
     }
     let out = f.finalize().unwrap();
     frame_is_reference(&out[..], &msg[..n]);
-    kani::cover!(n == 6 && msg[0] == 0, "leading zero reachable");
+    kani::cover!(n == 4 && msg[0] == 0, "leading zero reachable");
     core::mem::forget(out);
 }
 
-/// (b) values: to_slice_cobs / to_vec_cobs / to_allocvec_cobs == RefCobs(to_slice(v)) ++ 00, decodes to v
-macro_rules! value_frames {
+/// (b) values: to_slice_cobs(v) == RefCobs(to_slice(v)) ++ 00 and decodes to v; the other two storages
+/// produce the same bytes (separate harnesses: one real call + one comparison each).
+macro_rules! value_frame_slice {
     ($name:ident, $ty:ty, $cap:literal, $unwind:literal) => {
         #[kani::proof]
         #[kani::unwind($unwind)]
@@ -99,33 +100,63 @@ macro_rules! value_frames {
             let frame = postcard::to_slice_cobs(&v, &mut fb).unwrap();
             frame_is_reference(frame, plain);
             let flen = frame.len();
-            let hv: heapless::Vec<u8, { $cap + 2 }> = postcard::to_vec_cobs(&v).unwrap();
-            assert!(hv.len() == flen);
-            let mut i = 0;
-            while i < flen {
-                assert!(hv[i] == frame[i]);
-                i += 1;
-            }
-            let av = postcard::to_allocvec_cobs(&v).unwrap();
-            assert!(av.len() == flen);
-            let mut i = 0;
-            while i < flen {
-                assert!(av[i] == frame[i]);
-                i += 1;
-            }
-            core::mem::forget(av);
             let back: $ty = postcard::from_bytes_cobs(frame).unwrap();
-            assert!(back == v);
+            assert!(back == v, "COBS frame does not decode back to the value");
             kani::cover!(flen == $cap + 2, "longest frame reachable");
         }
     };
 }
-//@ tier=quick class=core cap=900 bounds="all u32 values: three COBS entry points vs reference, decode back"
-value_frames!(c06_value_u32, u32, 5, 9);
-//@ tier=thorough class=core cap=1800 bounds="all u64 values"
-value_frames!(c06_value_u64, u64, 10, 14);
-//@ tier=thorough class=core cap=1800 bounds="all Named values"
-value_frames!(c06_value_named, Named, 9, 13);
+macro_rules! value_frame_hvec {
+    ($name:ident, $ty:ty, $cap:literal, $unwind:literal) => {
+        #[kani::proof]
+        #[kani::unwind($unwind)]
+        fn $name() {
+            let v: $ty = kani::any();
+            let mut fb = [0u8; $cap + 2];
+            let frame = postcard::to_slice_cobs(&v, &mut fb).unwrap();
+            let flen = frame.len();
+            let hv: heapless::Vec<u8, { $cap + 2 }> = postcard::to_vec_cobs(&v).unwrap();
+            assert!(hv.len() == flen, "to_vec_cobs length differs from to_slice_cobs");
+            let mut i = 0;
+            while i < flen {
+                assert!(hv[i] == frame[i], "to_vec_cobs bytes differ from to_slice_cobs");
+                i += 1;
+            }
+            kani::cover!(flen == $cap + 2, "longest frame reachable");
+        }
+    };
+}
+macro_rules! value_frame_alloc {
+    ($name:ident, $ty:ty, $cap:literal, $unwind:literal) => {
+        #[kani::proof]
+        #[kani::unwind($unwind)]
+        fn $name() {
+            let v: $ty = kani::any();
+            let mut fb = [0u8; $cap + 2];
+            let frame = postcard::to_slice_cobs(&v, &mut fb).unwrap();
+            let flen = frame.len();
+            let av = postcard::to_allocvec_cobs(&v).unwrap();
+            assert!(av.len() == flen, "to_allocvec_cobs length differs from to_slice_cobs");
+            let mut i = 0;
+            while i < flen {
+                assert!(av[i] == frame[i], "to_allocvec_cobs bytes differ from to_slice_cobs");
+                i += 1;
+            }
+            kani::cover!(flen == $cap + 2, "longest frame reachable");
+            core::mem::forget(av);
+        }
+    };
+}
+//@ tier=quick class=core cap=900 bounds="all u32 values: to_slice_cobs vs reference COBS of the plain bytes, decode back"
+value_frame_slice!(c06_value_u32, u32, 5, 9);
+//@ tier=thorough class=core cap=1800 bounds="all u64 values: to_slice_cobs vs reference, decode back"
+value_frame_slice!(c06_value_u64, u64, 10, 14);
+//@ tier=thorough class=core cap=1800 bounds="all Named values: to_slice_cobs vs reference, decode back"
+value_frame_slice!(c06_value_named, Named, 9, 13);
+//@ tier=thorough class=core cap=1800 bounds="all u32 values: to_vec_cobs == to_slice_cobs"
+value_frame_hvec!(c06_value_hvec_u32, u32, 5, 9);
+//@ tier=thorough class=best cap=1800 bounds="all u32 values: to_allocvec_cobs == to_slice_cobs (heap)"
+value_frame_alloc!(c06_value_alloc_u32, u32, 5, 9);
 
 /// (c) behaviour around multiples of 254: R concrete non-zero bytes, then a window of up to 8
 /// fully symbolic bytes.  Prefix VALUES are concrete (stated cut); everything the window can
@@ -136,69 +167,76 @@ macro_rules! boundary {
         #[kani::unwind($unwind)]
         fn $name() {
             const R: usize = $r;
-            const TOT: usize = R + 8;
-            let mut msg = [0x11u8; TOT];
+            const W: usize = 6;
+            const TOT: usize = R + W;
             let zero_at: Option<usize> = $zero_at;
-            if let Some(z) = zero_at {
-                msg[z] = 0;
-            }
-            let w: [u8; 8] = kani::any();
+            let w: [u8; W] = kani::any();
             let wl: usize = kani::any();
-            kani::assume(wl <= 8);
-            let mut i = 0;
-            while i < 8 {
-                msg[R + i] = w[i];
-                i += 1;
-            }
+            kani::assume(wl <= W);
             let n = R + wl;
+            // real encoder: concrete prefix loop, then the symbolic window
             let mut buf = [0u8; TOT + TOT / 254 + 3];
             let mut f = Cobs::try_new(Slice::new(&mut buf[..])).unwrap();
+            let mut want = [0u8; TOT + TOT / 254 + 3];
+            let mut e = RefEnc::new(&mut want[..]);
             let mut i = 0;
-            while i < n {
-                f.try_push(msg[i]).unwrap();
+            while i < R {
+                let x = if Some(i) == zero_at { 0 } else { 0x11 };
+                f.try_push(x).unwrap();
+                e.push(x);
+                i += 1;
+            }
+            let mut i = 0;
+            while i < W {
+                if i < wl {
+                    f.try_push(w[i]).unwrap();
+                    e.push(w[i]);
+                }
                 i += 1;
             }
             let out = f.finalize().unwrap();
-            let mut want = [0u8; TOT + TOT / 254 + 3];
-            let m = cobs_encode_into(&msg[..n], &mut want);
+            let m = e.finish();
             assert!(out.len() == m + 1, "frame length differs from standard COBS + sentinel");
-            assert!(out[m] == 0);
+            assert!(out[m] == 0, "frame does not end with the sentinel");
             assert!(out.len() <= n + n / 254 + 2);
             // everything from the last code byte the window can still patch to the end
-            let from = if R >= 255 { R - 255 } else { 0 };
-            let mut i = from;
-            while i < m {
-                assert!(out[i] == want[i], "frame byte differs from standard COBS");
-                assert!(out[i] != 0, "interior zero byte in the frame");
+            // (bytes before it are concrete copies of the prefix in both encoders)
+            const FROM: usize = (R / 254) * 255;
+            let mut i = FROM;
+            while i < TOT + TOT / 254 + 2 {
+                if i < m {
+                    assert!(out[i] == want[i], "frame byte differs from standard COBS");
+                    assert!(out[i] != 0, "interior zero byte in the frame");
+                }
                 i += 1;
             }
             // zero-free message: the length formula is an equality
             let mut zero_free = zero_at.is_none();
             let mut i = 0;
-            while i < 8 {
+            while i < W {
                 if i < wl && w[i] == 0 {
                     zero_free = false;
                 }
                 i += 1;
             }
             if zero_free {
-                assert!(out.len() == n + n / 254 + 2);
+                assert!(out.len() == n + n / 254 + 2, "zero-free message: length is not n + floor(n/254) + 2");
             }
-            kani::cover!(wl == 8 && zero_free, "zero-free run across the boundary reachable");
-            kani::cover!(wl == 8 && w[3] == 0, "zero inside the window reachable");
+            kani::cover!(wl == W && zero_free, "zero-free run across the boundary reachable");
+            kani::cover!(wl == W && w[3] == 0, "zero inside the window reachable");
         }
     };
 }
-//@ tier=quick class=core cap=900 bounds="250 concrete non-zero bytes + window of 0..=8 symbolic bytes: run lengths 250..258 around the first 254 boundary"
-boundary!(c06_boundary_250, 250, None, 262);
-//@ tier=thorough class=core cap=1800 bounds="246 concrete + 0..=8 symbolic: run lengths 246..254"
-boundary!(c06_boundary_246, 246, None, 258);
-//@ tier=thorough class=core cap=1800 bounds="250 concrete (zero at 3) + 0..=8 symbolic"
-boundary!(c06_boundary_250_z3, 250, Some(3), 262);
-//@ tier=thorough class=core cap=2400 bounds="504 concrete + 0..=8 symbolic: second 254 boundary (508)"
-boundary!(c06_boundary_504, 504, None, 516);
-//@ tier=thorough class=core cap=2400 bounds="758 concrete + 0..=8 symbolic: third 254 boundary (762)"
-boundary!(c06_boundary_758, 758, None, 770);
+//@ tier=quick class=core cap=900 bounds="251 concrete non-zero bytes + window of 0..=6 symbolic bytes: run lengths 251..257 around the first 254 boundary"
+boundary!(c06_boundary_251, 251, None, 263);
+//@ tier=thorough class=core cap=1800 bounds="248 concrete + 0..=6 symbolic: run lengths 248..254"
+boundary!(c06_boundary_248, 248, None, 263);
+//@ tier=thorough class=core cap=1800 bounds="251 concrete (zero at 3) + 0..=6 symbolic"
+boundary!(c06_boundary_251_z3, 251, Some(3), 263);
+//@ tier=thorough class=core cap=2400 bounds="505 concrete + 0..=6 symbolic: second 254 boundary (508)"
+boundary!(c06_boundary_505, 505, None, 507);
+//@ tier=thorough class=core cap=2400 bounds="759 concrete + 0..=6 symbolic: third 254 boundary (762)"
+boundary!(c06_boundary_759, 759, None, 761);
 
 /// (d) several frames back to back; last sentinel present or not.
 macro_rules! frame_sequence {
